@@ -15,4 +15,9 @@ TEXT = {
   "note": "Trusted: as C13; integer-valued lags (exact in float64); Go recursion modelled with fuel. No axioms.",
   "technique": "Coq proof (scan invariants, fuel termination) + differential (K1) correspondence",
  },
+ "C08": {
+  "text": "The lost-state handler (stateLost, checkHAReplicasRunning, stopReplicationOnMaster and the node.go methods they use) is modelled as a program over SQL statements. Coq theorems over ALL responses of ALL calls (hence all faults and crash prefixes): every call issued while disconnected is a read or one of {read-only, offline, semi-sync off, kill} on the local node - never a promotion, re-point, un-fence, coordination write or statement on another host; no-op cases issue nothing but the connectivity test; the decision fences iff not (master with live group) and not (unreachable replica within the inactivation delay), postponement is bounded by the delay; a fence decision starts with the read-only statement and any other decision issues nothing. K2 correspondence replays transcripts of the real stateLost (fake MySQL over the wire protocol, virtual time) through the model; an independent monitor evaluates the decision table on the implementation.",
+  "note": "Trusted: Coq kernel+VM; the fake MySQL semantics (DESIGN App. C); synctest; harness/driver; Peek oracle for the kill-loop iteration count. No axioms.",
+  "technique": "Coq proof over free-monad program model (oracle semantics, allcalls soundness) + transcript-replay (K2) correspondence",
+ },
 }
